@@ -10,6 +10,7 @@ import (
 	"compress/zlib"
 	"context"
 	"fmt"
+	"math"
 	"net"
 	"strings"
 	"sync"
@@ -17,6 +18,7 @@ import (
 
 	"github.com/pierrec/lz4/v4"
 	"github.com/sirupsen/logrus"
+	"golang.org/x/time/rate"
 	"google.golang.org/protobuf/proto"
 
 	"github.com/atlassian/gostatsd"
@@ -65,8 +67,12 @@ func c03Line(e *Env) string {
 		return base[:i] + "\x00" + base[i:]
 	case 5: // very long line
 		e.Fault("long-line")
-		n := []int{1000, 1472, 8192, 30000, 65000}[e.Draw(5)]
-		switch e.Draw(4) {
+		n := []int{1000, 1472, 8192, 30000, 65000, 257, 300}[e.Draw(7)]
+		switch e.Draw(6) {
+		case 4:
+			return strings.Repeat("\x80", n) // nothing but UTF-8 continuation bytes
+		case 5:
+			return strings.Repeat("\xe2\x82", n/2) + "|c"
 		case 0:
 			return strings.Repeat("n", n) + ":1|c"
 		case 1:
@@ -112,7 +118,7 @@ func c03Line(e *Env) string {
 }
 
 func (c03) Run(e *Env) {
-	e.ProbeDecl("datagram-side", "http-side", "hostile-then-canary", "max-size-datagram", "http-corrupt-compressed", "http-unknown-encoding", "http-4xx-nothing-dispatched", "empty-datagram")
+	e.ProbeDecl("datagram-side", "http-side", "hostile-then-canary", "max-size-datagram", "http-corrupt-compressed", "http-unknown-encoding", "http-4xx-nothing-dispatched", "empty-datagram", "datagram-fills-the-receive-buffer", "http-event-body")
 	if e.Chance(2, 3) {
 		c03Datagrams(e)
 	} else {
@@ -127,7 +133,8 @@ func c03Datagrams(e *Env) {
 	st := NewRecStatser()
 	sock := NewSimSocket()
 	ch := make(chan []*statsd.Datagram)
-	parser := statsd.NewDatagramParser(ch, "", e.Bool(), 0, h, 0, false, logrus.StandardLogger())
+	// estimated tags, the bad-line log limiter and raw-metric logging are start-up options too
+	parser := statsd.NewDatagramParser(ch, "", e.Bool(), []int{0, 2, 4}[e.Draw(3)], h, []rate.Limit{0, 1000, 0.5}[e.Draw(3)], e.Chance(1, 4), logrus.StandardLogger())
 	recv := statsd.NewDatagramReceiver(ch, func() (net.PacketConn, error) { return sock, nil }, e.Range(1, 2), e.Range(1, 3))
 	ctx, cancel := context.WithCancel(stats.NewContext(context.Background(), st))
 	var wg sync.WaitGroup
@@ -176,6 +183,22 @@ func c03Datagrams(e *Env) {
 		if e.Chance(1, 20) {
 			p = ""
 			e.Probe("empty-datagram")
+		}
+		if e.Chance(1, 25) {
+			// exactly as large as the receive buffer (or one less), ending in the middle of a line
+			tail := []string{"a:1|m", "a:1|", "a:1|c|@", "a:1|c|#", "a:", "_e{", "_e{1,1}:a|", "a:1|ms", "a:1|c|@0.", "x"}[e.Draw(10)]
+			size := 65535 - e.Draw(2)
+			var sb strings.Builder
+			for sb.Len()+10 < size-len(tail) {
+				sb.WriteString("pad.c:1|c\n")
+			}
+			if gap := size - len(tail) - sb.Len(); gap > 1 {
+				sb.WriteString(strings.Repeat("z", gap-1) + "\n")
+			} else if gap == 1 {
+				sb.WriteString("\n")
+			}
+			p = sb.String() + tail
+			e.Probe("datagram-fills-the-receive-buffer")
 		}
 		if len(p) > 65535 {
 			p = p[:65535]
@@ -230,6 +253,15 @@ func c03Body(e *Env) ([]byte, string, bool) {
 	mm := &pb.RawMessageV2{Counters: map[string]*pb.CounterTagV2{"c": {TagMap: map[string]*pb.RawCounterV2{"t:1": {Tags: []string{"t:1"}, Value: int64(1 + e.Draw(100))}}}}}
 	raw, _ := proto.Marshal(mm)
 	valid := true
+	if e.Chance(1, 3) {
+		// a well-formed event message whose enum and integer fields hold whatever the wire allows
+		enums := []int32{0, 1, 2, 3, 4, 5, 100, -1, -2, math.MinInt32, math.MaxInt32}
+		ev := &pb.EventV2{Title: "t", Text: "x", DateHappened: []int64{0, 1700000000, -1, math.MinInt64, math.MaxInt64}[e.Draw(5)],
+			Priority: pb.EventV2_EventPriority(enums[e.Draw(len(enums))]), Type: pb.EventV2_AlertType(enums[e.Draw(len(enums))])}
+		raw, _ = proto.Marshal(ev)
+		e.Probe("http-event-body")
+		valid = false // well formed as an event; what /v2/raw makes of it is its business
+	}
 	switch e.Draw(5) {
 	case 0:
 	case 1: // mutated protobuf
